@@ -202,4 +202,38 @@ theorem removeOne_eq (o : Obj) (p : LPath) :
     · simp only [hf, hm, if_true]; rfl
   · simp only [hf]; rfl
 
+/-! ### directories are path boundaries -/
+
+/-- **a directory's content is what lies below `dir/`**: `p` is under `d` exactly when it is `d`, a
+    slash and something more — a sibling whose name merely starts with `d` (`img2/x` next to `img`)
+    is not -/
+theorem under_iff (d p : Str) : under d p = true ↔ ∃ rest, p = d ++ '/' :: rest := by
+  unfold under
+  rw [List.isPrefixOf_iff_prefix]
+  constructor
+  · rintro ⟨t, ht⟩
+    exact ⟨t, by rw [← ht]; simp⟩
+  · rintro ⟨rest, h⟩
+    exact ⟨rest, by rw [h]; simp⟩
+
+theorem under_sibling_false (d p : Str) (c : Char) (rest : Str) (hc : c ≠ '/') (hp : p = d ++ c :: rest) :
+    under d p = false := by
+  cases h : under d p with
+  | false => rfl
+  | true =>
+    obtain ⟨r, hr⟩ := (under_iff d p).mp h
+    rw [hp] at hr
+    have := List.append_cancel_left hr
+    injection this with h1 _
+    exact absurd h1 hc
+
+/-- `paths_with_prefix` (what `rm -r`, `reset -r`, `cp -i -r`, `mv -i` operate on for a directory):
+    exactly the paths of the version that lie under that directory -/
+theorem pathsWithPrefix_iff (v : Version) (d p : Str) (hd : d ≠ []) (hl : d.getLast? ≠ some '/') :
+    p ∈ v.pathsWithPrefix d ↔ p ∈ AL.keys v.state ∧ under d p = true := by
+  unfold Version.pathsWithPrefix under
+  have h1 : d.isEmpty = false := by cases d with | nil => exact absurd rfl hd | cons _ _ => rfl
+  have h2 : (d.getLast? == some '/') = false := by simpa using hl
+  simp [h1, h2, List.mem_filter]
+
 end Rocfl
